@@ -3,7 +3,7 @@ import re
 
 from .. import accept
 from ..facts import AnchorMissing
-from ..guards import analysis
+from ..guards import analysis, field_index
 from ..sym import Sym, forward_paths, path_atoms, atom_str, Poly
 from ..terms import strip, short, cname, show
 from .common import check_lookup, int_conversion_ranges, ranges_of
@@ -114,7 +114,7 @@ def run(prog, tier, res):
             cov.append((a, b, k))
     for p in tb.paths:
         for a in p:
-            m = re.match(r"^quant any \[(.+)\.\.(.+)\) x Ne 0 False$", a)
+            m = re.match(r"^quant within \[(.+)\.\.(.+)\) elems\[\\x00\] True$", a)
             if m:
                 cov.append((parse_lin(m.group(1)), parse_lin(m.group(2)), "zero padding"))
     cov = list({(str(a), str(b)): (a, b, k) for a, b, k in cov}.values())
@@ -136,20 +136,43 @@ def run(prog, tier, res):
     psy = Sym(prog, pan, slice_param=99)
     res.functions.add(PCRC)
     takes = [(bb, t) for bb, t in pb.calls() if short(cname(t)) == "Iterator::take"]
-    got_pad = []
+    # the number of zero bytes appended, as a function of the payload length: evaluated for every length 0..256 from
+    # the guard atoms and value polynomial of each path (the decoder's padding is (4 - len % 4) % 4)
+    from ..finite import eval_poly
+    from ..funeval import holds
+    LEN = "len(arg1.%d)" % field_index(prog, "alpha_g_detector::padwing::Chunk", "payload")
+    pad_bad = []
+    per_path = []
     for bb, t in takes:
         for path in forward_paths(pan, bb) or []:
-            ats = accept.simplify(path_atoms(psy, path), psy.sym_box)
-            if ats is None:
-                continue
+            ats = path_atoms(psy, path)
             psy.set_path(path[1])
             v = psy.poly(pan.terms.operand(t["args"][1]))
             psy.set_path(None)
-            got_pad.append([field_names_subst(prog, "; ".join(sorted(atom_str(a) for a in ats))), field_names_subst(prog, str(v))])
-    if sorted(got_pad) == sorted(spec["payload_crc_padding"]):
+            per_path.append((ats, v))
+    if len(takes) != 1 or not per_path or any(v is None for _, v in per_path):
+        pad_bad.append("no single `take(padding)` of repeated zeros with an integer count")
+    else:
+        for n in range(0, 257):
+            env = {LEN: n}
+            vals = []
+            for ats, v in per_path:
+                h = holds(psy, ats, env)
+                if h is None:
+                    vals = None
+                    break
+                if h:
+                    vals.append(eval_poly(psy, v, env))
+            if not vals or any(x is None for x in vals) or len(set(vals)) != 1:
+                pad_bad.append("cannot evaluate the padding for a payload of %d bytes" % n)
+                break
+            if vals[0] != (4 - n % 4) % 4:
+                pad_bad.append("a payload of %d bytes is padded with %s zero bytes, the decoder expects %d" % (n, vals[0], (4 - n % 4) % 4))
+                break
+    if not pad_bad:
         res.hit(R4)
     else:
-        res.violate(R4, PCRC, "padding", "payload_crc32c() pads with %s; the decoder's padding is (4 - len %% 4) %% 4, i.e. %s" % (got_pad, spec["payload_crc_padding"]), pb.where())
+        res.violate(R4, PCRC, "padding", "payload_crc32c(): %s" % pad_bad[0], pb.where())
     prets = [field_names_subst(prog, psy.name(t)) for _, t in pan.ret_assignments()]
     if len(prets) == 1 and prets[0].startswith("not(crc32c::crc32c(Index::index(Iterator::collect(Iterator::chain(arg1.payload,Iterator::take(iter::repeat(0),"):
         res.hit(R4)
